@@ -1,12 +1,15 @@
 """C11 — every resolved date-time value is well formed and agrees with its TIMEX.
 
-The property predicate `wellFormed` lives in Lean (RTV/Model/WellFormed.lean: shapeOK, definiteOK, typeNameOK) and is
-evaluated through the compiled driver on every entity the real date-time model returns over
+The property predicate `wellFormed` lives in Lean (RTV/Model/WellFormed.lean: shapeOK, definiteOK, typeNameOK; + sentinelOK,
+which `judge` demands as well) and is evaluated through the compiled driver on every entity the real date-time model returns over
   (i) all Python-supported DateTime Specs inputs of every culture (their own reference date),
  (ii) generated expressions of C06–C10 incl. dates that do not exist, under references spread over 1950..2090.
 Unit level: DateTimeFormatUtil.format_date / format_time / format_date_time / luis_date, `_determine_date_time_types`
 and `_date_time_resolution` (single date/time/datetime slots) against the Lean model (`formatDate`, `determineType`,
-`resolveSingle`) — the functions the theorems of RTV.Props.C11 are about.
+`resolveSingle`), and `set_parse_result` on constructed slots of every kind x modifier string x flag against
+`RTV.WF.resolveSlot` / `slotTypeName` (RTV/Model/Assemble.lean) — the functions the theorems of RTV.Props.C11 are about.
+Every query also records whether `DateTimeModel.parse` swallowed an exception (evidence `swallowed_exceptions`; reported as
+a correspondence-level observation for the generated families).
 Entities whose resolution is None emit no value: counted, not judged (DESIGN.md §4 #16)."""
 import datetime
 
@@ -19,8 +22,11 @@ PROPS_MODULES = ['RTV.Props.C11', 'RTV.Props.C11Holiday', 'RTV.Props.C11Range']
 GEN = ['chartables', 'durationmaps', 'holiday']
 REQUIRED_THEOREMS = ['format_date_wellformed', 'format_time_wellformed', 'format_datetime_wellformed', 'min_value_filtered',
                      'assembly_wellformed_date', 'assembly_wellformed_time', 'assembly_wellformed_datetime',
-                     'period_wellformed_daterange', 'period_invalid_end_filtered', 'period_modifier_one_end',
-                     'definite_timex_value_date', 'type_name_agrees',
+                     'period_wellformed_daterange', 'period_invalid_end_filtered', 'period_slot_not_resolved', 'period_modifier_one_end',
+                     'period_before_invalid_start_emitted', 'period_after_invalid_end_emitted', 'period_since_invalid_start_emitted',
+                     'before_nonexistent_start_witness',
+                     'definite_timex_value_date', 'definite_timex_value_modifier', 'definite_value_mismatch_detected',
+                     'definite_duration_value', 'type_name_agrees', 'type_name_table',
                      'holiday_values_wellformed', 'holiday_definite_agrees', 'holiday_values_sentinel_free',
                      'holiday_fn_never_raises', 'holiday_nth_weekday', 'holiday_last_weekday', 'holiday_tables_sane',
                      'holiday_unknown_functions', 'holiday_get_day_shape',
@@ -363,9 +369,52 @@ def holiday_level(ctx):
     ctx.extra['holiday_unknown_function_cases_skipped'] = unknown
 
 
-def judge(ctx, jobs, results, family, strict_periods=False):
+def modifier_jobs(thorough):
+    """C11-own generated family: before / after / since / until in front of points and RANGES — incl. ranges one of whose ends
+    does not exist (the `before` branch of `__add_period_to_resolution` writes the start whatever it is: theorem
+    `period_before_invalid_start_emitted`), definite points (the written end must be the TIMEX point), signed and decimal
+    durations."""
+    import hashlib
+    exprs = ['before February 30 to March 2', 'after February 27 to February 30', 'since February 30 to March 2',
+             'before from 2019-02-30 to 2019-03-02', 'after from 2019-02-27 to 2019-02-30', 'until February 30 to March 2',
+             'before between February 30 and March 2', 'before June 31 to July 2', 'after April 29 to April 31',
+             'before 2019-05-05', 'after 2019-05-05', 'since 2019-05-05', 'until 2019-05-05', 'before May 5 2019 3pm',
+             'after 3pm', 'before 15:30', 'since 2019-05-05 10:00', 'after 2019-05-05 23:59:59', 'before 2019-02-30',
+             'after February 30', 'before the 31st', 'until June 31', 'on or before 2020-02-29', '2012 or later',
+             '3 pm or later', 'before next week', 'after this month', 'before end of next month', 'since last year',
+             '-3 days', '- 3 days', '1.5 hours', '0.7 seconds', '2.5 weeks', '1.1 hours', '3.3 minutes', 'half an hour',
+             'more than 3 days', 'less than 1.1 hours', '90 minutes', '36 hours', '0 days', '1e3 seconds', '5000000 years',
+             '3 hours 20 minutes', 'an hour and a half', 'two and a half days', '1 hour 1 minute 1 second']
+    refs = [datetime.datetime(2019, 2, 15, 0, 0, 0), datetime.datetime(2016, 11, 7, 0, 0, 0)]
+    if thorough:
+        refs += [datetime.datetime(2020, 2, 29, 12, 0, 0), datetime.datetime(1950, 1, 1, 0, 0, 0), datetime.datetime(2090, 10, 31, 6, 0, 0)]
+    return [('en-us', e, r) for e in exprs for r in refs]
+
+
+def _swallowed_key(j):
+    """the signature says WHAT (culture, exception type) and on which text; the reference is part of the failing-set key
+    (`common.input_key`: culture|query|reference), not of the signature: 'the 31st' raises under every reference whose
+    neighbouring month has no 31st"""
+    import hashlib
+    return hashlib.sha1(j[1].encode('utf-8')).hexdigest()[:10]
+
+
+def judge(ctx, jobs, results, family, strict_periods=False, swallowed=None, report_swallowed=False):
     ents, meta = [], []
     none_res = 0
+    if swallowed is not None:
+        for j, sw in zip(jobs, swallowed):
+            if not sw:
+                continue
+            ctx.count('query on which DateTimeModel.parse swallowed an exception (%s)' % family)
+            if report_swallowed:
+                # an observation about the model's error handling, not a failure of the property: the entity the extractor
+                # found is silently lost (the property's oracle has nothing to judge)
+                ctx.report('correspondence', 'swallowed-exception:%s:%s:%s' % (j[0], sw[1], _swallowed_key(j)),
+                           '%s %r (reference %s): DateTimeModel.parse swallowed %s: %s raised by the merged %s — the caller gets the '
+                           'entities found before it (often none) and no sign of the failure' % (j[0], j[1], j[2], sw[1], sw[2], 'extractor' if sw[0] == 'extract' else 'parser'),
+                           failing_input={'culture': j[0], 'query': j[1], 'reference': str(j[2]), 'stage': sw[0],
+                                          'exception': '%s: %s' % (sw[1], sw[2])}, property_fails=False)
     for j, res in zip(jobs, results):
         ctx.count(family)
         if isinstance(res, str):
@@ -417,13 +466,19 @@ def correspond(ctx):
             extra.append((c, q, dtcorpus.EXTRA_REFS[i % len(dtcorpus.EXTRA_REFS)]))
         jobs = jobs + extra
     res = dtpipe.run(jobs)
-    n1 = judge(ctx, jobs, res, 'specs input')
+    n1 = judge(ctx, jobs, res, 'specs input', swallowed=list(dtpipe.LAST_SWALLOWED))
     gj = dtcorpus.generated_jobs(ctx.rng('gen'), ctx.thorough)
     gres = dtpipe.run(gj)
-    n2 = judge(ctx, gj, gres, 'generated expression')
+    n2 = judge(ctx, gj, gres, 'generated expression', swallowed=list(dtpipe.LAST_SWALLOWED), report_swallowed=True)
     pj = dtcorpus.period_boundary_jobs(ctx.thorough)
-    n3 = judge(ctx, pj, dtpipe.run(pj), 'period expression at a year/month turn', strict_periods=True)
-    ctx.extra['entities_judged'] = n1 + n2 + n3
+    pres = dtpipe.run(pj)
+    n3 = judge(ctx, pj, pres, 'period expression at a year/month turn', strict_periods=True, swallowed=list(dtpipe.LAST_SWALLOWED))
+    mj = modifier_jobs(ctx.thorough)
+    mres = dtpipe.run(mj)
+    n4 = judge(ctx, mj, mres, 'modifier / duration expression', swallowed=list(dtpipe.LAST_SWALLOWED), report_swallowed=True)
+    ctx.extra['entities_judged'] = n1 + n2 + n3 + n4
+    # every query of this run on which the model's `except Exception: pass` hid an exception (by exception type and culture)
+    ctx.extra['swallowed_exceptions'] = dtpipe.swallowed_summary()
     for j, r in list(zip(gj, gres))[:3]:
         if not isinstance(r, str) and r:
             ctx.sample({'culture': j[0], 'query': j[1], 'reference': str(j[2]), 'entities': r[:2]})
